@@ -722,3 +722,13 @@ Theorem c07_moead_step_in_domain :
        Forall (EncOK Val Num Ty types dom_enc) (fst (moead_iterate Val Num ev T vary better arity eta items pop)).
 Proof. exact moead_step_in_domain. Qed.
 
+
+(* Real.rand when max - min overflows (fix 143937a; the same guard in UM.um_mutation, fix f6dc0d6): in exact
+   arithmetic the interpolation min*(1-r) + max*r with r = random.random() in [0,1) lies in [min, max], so the
+   range contract of c07_rand_real_in_domain holds for every finite min <= max *)
+From Coq Require Import QArith.
+Open Scope Z_scope.
+Theorem c07_rand_real_wide_in_domain : forall lb ub r : Q,
+  (lb <= ub)%Q -> (0 <= r)%Q -> (r <= 1)%Q ->
+  (lb <= rand_real_interp lb ub r)%Q /\ (rand_real_interp lb ub r <= ub)%Q.
+Proof. exact rand_real_wide_in_domain. Qed.
